@@ -23,7 +23,8 @@ ASSUMPTIONS = ['reference: Warshall transitive closure, components = mutual reac
 BUDGET = {'quick': 600, 'thorough': 3600}
 
 NAMES = {'str': lambda i: 's%d' % i, 'tup': lambda i: (i, 'x'), 'spaced': lambda i: (8, 1, 17, 40, 3)[i],
-         'mixed': lambda i: (0, 'x', (2,), None, 2.5)[i], 'fsets': lambda i: frozenset([i, 'k'])}
+         'mixed': lambda i: (None, 'x', (2,), 0, 2.5)[i], 'fsets': lambda i: frozenset([i, 'k']),
+         'falsy': lambda i: (0, '', (), frozenset(), False)[i] if i < 4 else 4}
 
 
 def scope(tier, seed):
